@@ -13,7 +13,25 @@ type tagCycleNode struct {
 }
 
 func (cv *tagCycleValue) String() string {
-	return cv.value.String()
+	// The current value of a cycle can be another cycle value and can even
+	// refer back to itself ({% cycle x as x %}{% cycle x %}). Follow the chain
+	// iteratively instead of recursing through Value.String() without end.
+	seen := make(map[*tagCycleValue]bool)
+	cur := cv
+	for {
+		if seen[cur] {
+			return ""
+		}
+		seen[cur] = true
+		if cur.value == nil {
+			return ""
+		}
+		next, ok := cur.value.Interface().(*tagCycleValue)
+		if !ok {
+			return cur.value.String()
+		}
+		cur = next
+	}
 }
 
 // nextArg returns the argument this cycle tag is at within the current
